@@ -250,6 +250,7 @@ impl Env {
                 "param": p.param, "pattern": p.pattern,
                 "fn_lets_before": p.fnb.lets_before, "fn_lets_after": p.fnb.lets_after,
                 "inner_lets_before": p.inner.lets_before, "inner_lets_after": p.inner.lets_after,
+                "sibling_arm_lets": p.sibling_lets,
             },
             "origin": origin,
             "layout": layout.map(|l| l.name(tree)),
@@ -521,7 +522,7 @@ fn nontrivial(world: &World, p: &Prog, e: Expect) -> bool {
     let copies = world.has[it as usize].count_ones();
     let locals = p.param.is_some() as u32
         + p.pattern.is_some() as u32
-        + (p.fnb.lets_before.len() + p.inner.lets_before.len()) as u32;
+        + (p.fnb.lets_before.len() + p.inner.lets_before.len() + p.sibling_lets.len()) as u32;
     match e {
         Expect::Tag(_) => copies + locals >= 2,
         Expect::Error => copies >= 1,
